@@ -554,6 +554,8 @@ func specBytesEq8(a, b []byte) bool {
 //@ requires regBits&0xC7 == 0
 //@ ensures[reg@C02+C01] err == nil ==> modrmByte&0x38 == regBits
 //@ ensures[ea@C02+C01]  err == nil ==> specEAOK(mem, specMode(bitMode), modrmByte, sibByte, dispBytes)
+//@ ensures[displen@C01+C02+C03] err == nil ==> len(dispBytes) <= 4
+//@ ensures[nosib@C01+C02+C03] err == nil && specAddrFormHandled(mem, specMode(bitMode)) && !specHasSIB(specAddrSize(mem, specMode(bitMode)), modrmByte) ==> sibByte == 0
 //@ ensures[size@C03] err == nil && ng_operand.SpecAddrSize(mem, specMode(bitMode)) != 0 ==> len(dispBytes) == ng_operand.SpecDispBytes(mem, specMode(bitMode)) && specHasSIB(specAddrSize(mem, specMode(bitMode)), modrmByte) == (ng_operand.SpecSibBytes(mem, specMode(bitMode)) == 1)
 
 //@ func handleJcc
@@ -704,6 +706,29 @@ func specInOutBytes(out []byte, acc, port string, opAL8, opWide8, opALdx, opWide
 // specIsMemText: the test the ModR/M builders use to tell a memory operand from a register name.
 func specIsMemText(s string) bool { return strings.Contains(s, "[") && strings.HasSuffix(s, "]") }
 
+// specAddrFormHandled: the address registers form a 16- or 32-bit address and are not 16-bit
+// registers in 32-bit mode (outside this the encoder is wrong already: findings C02-nonaddr-regs,
+// C02-r16-in-sib on calculateModRM).
+func specAddrFormHandled(m *ng_operand.MemoryInfo, mode int) bool {
+	return specAddrSize(m, mode) != 0 && !(specAddrSize(m, mode) == 16 && mode == 32)
+}
+
+// specModRMLayout: out is the ModR/M byte, the SIB byte when the addressing form has one, then
+// the displacement bytes (at most four), in this order and nothing else.
+func specModRMLayout(out []byte, modrm byte, hasSib bool, sib byte, disp []byte) bool {
+	n := 1
+	if hasSib {
+		n = 2
+	}
+	if len(disp) > 4 || len(out) != n+len(disp) || out[0] != modrm {
+		return false
+	}
+	if hasSib && out[1] != sib {
+		return false
+	}
+	return (len(disp) < 1 || out[n] == disp[0]) && (len(disp) < 2 || out[n+1] == disp[1]) && (len(disp) < 3 || out[n+2] == disp[2]) && (len(disp) < 4 || out[n+3] == disp[3])
+}
+
 //@ func ModRMByOperand
 //@ props C01 C13
 //@ requires bitMode == cpu.MODE_16BIT || bitMode == cpu.MODE_32BIT
@@ -712,6 +737,7 @@ func specIsMemText(s string) bool { return strings.Contains(s, "[") && strings.H
 //@ ensures[regreg] !specIsMemText(rmOperand) && result1 == nil ==> len(result0) == 1 && specRegNum(regOperand) >= 0 && specRegNum(rmOperand) >= 0 && result0[0] == 0xC0|byte(specRegNum(regOperand))<<3|byte(specRegNum(rmOperand))
 //@ ensures[regreg.err] !specIsMemText(rmOperand) && (specRegNum(regOperand) < 0 || specRegNum(rmOperand) < 0) ==> result1 != nil
 //@ ensures[mem.reg] specIsMemText(rmOperand) && result1 == nil ==> len(result0) >= 1 && specRegNum(regOperand) >= 0 && result0[0]&0x38 == byte(specRegNum(regOperand))<<3
+//@ ensures[mem.layout@C01+C02+C03] specIsMemText(rmOperand) && result1 == nil ==> vcCalled("calculateModRM") && (specAddrFormHandled(vcResult[*ng_operand.MemoryInfo]("GetMemoryInfo", 0), specMode(bitMode)) ==> specModRMLayout(result0, vcResult[byte]("calculateModRM", 0), specHasSIB(specAddrSize(vcResult[*ng_operand.MemoryInfo]("GetMemoryInfo", 0), specMode(bitMode)), vcResult[byte]("calculateModRM", 0)), vcResult[byte]("calculateModRM", 1), vcResult[[]byte]("calculateModRM", 2)))
 //@ assigns OperandPegImpl.bitMode, OperandType[]
 
 //@ func ModRMByValue
@@ -721,6 +747,7 @@ func specIsMemText(s string) bool { return strings.Contains(s, "[") && strings.H
 //@ requires[A16] !specReg64Name(rmOperand)
 //@ requires specIsMemText(rmOperand) || rmOperand == "" || specIsRegName(rmOperand)
 //@ ensures[regdigit] !specIsMemText(rmOperand) && specRegNum(rmOperand) >= 0 ==> len(result0) == 1 && result0[0] == 0xC0|byte(regValue)<<3|byte(specRegNum(rmOperand))
+//@ ensures[mem.layout@C01+C02+C03] specIsMemText(rmOperand) && vcCalled("calculateModRM") && vcResult[error]("calculateModRM", 3) == nil && specAddrFormHandled(vcResult[*ng_operand.MemoryInfo]("GetMemoryInfo", 0), specMode(bitMode)) ==> specModRMLayout(result0, vcResult[byte]("calculateModRM", 0), specHasSIB(specAddrSize(vcResult[*ng_operand.MemoryInfo]("GetMemoryInfo", 0), specMode(bitMode)), vcResult[byte]("calculateModRM", 0)), vcResult[byte]("calculateModRM", 1), vcResult[[]byte]("calculateModRM", 2))
 //@ assigns OperandPegImpl.bitMode, OperandType[]
 
 //@ func registerToPushPopCode
@@ -765,16 +792,378 @@ func specParseDec64(s string) int {
 //@ ensures[enc] result1 == nil && ocode.Kind == 0+specOpRET() ==> len(result0) == 1 && result0[0] == 0xC3
 
 // ---------------------------------------------------------------------------
+// Opcode bytes of a table row (C01): hex string of the row, "+r" register added to the last byte
+// ---------------------------------------------------------------------------
+
+// specHexAt: the value of the k-th two-digit group of an opcode string (strconv's hexadecimal
+// reading is an assumed library contract); specHexOKAt: the group is two hexadecimal digits.
+func specHexAt(s string, k int) int {
+	v, _ := strconv.ParseUint(s[2*k:2*k+2], 16, 8)
+	return int(v)
+}
+
+func specHexOKAt(s string, k int) bool {
+	_, err := strconv.ParseUint(s[2*k:2*k+2], 16, 8)
+	return err == nil
+}
+
+//@ func ResolveOpcode
+//@ props C01 C03
+//@ requires len(op.Byte) <= 64
+//@ loop 0 invariant[i] 0 <= i && i&1 == 0 && i <= len(opStr) && len(opStr)&1 == 0 && 2*len(opBytes) == i
+//@ loop 0 invariant[bytes] forall(0, len(opBytes), func(k int) bool { return opBytes[k] == byte(specHexAt(opStr, k)) && specHexOKAt(opStr, k) })
+//@ ensures[len@C01+C03] result1 == nil ==> 2*len(result0) == len(op.Byte)
+//@ ensures[odd@C01+C03] len(op.Byte)&1 == 1 ==> result1 != nil
+//@ ensures[digits] result1 == nil ==> forall(0, len(result0), func(k int) bool { return specHexOKAt(op.Byte, k) })
+//@ ensures[bytes] result1 == nil ==> forall(0, len(result0)-1, func(k int) bool { return result0[k] == byte(specHexAt(op.Byte, k)) })
+//@ ensures[last.plain] result1 == nil && len(result0) > 0 && op.Addend == nil ==> result0[len(result0)-1] == byte(specHexAt(op.Byte, len(result0)-1))
+//@ ensures[last.plusr] result1 == nil && len(result0) > 0 && op.Addend != nil && 0 <= regNum && regNum <= 7 && specHexAt(op.Byte, len(result0)-1)&7 == 0 ==> int(result0[len(result0)-1]) == specHexAt(op.Byte, len(result0)-1)+regNum
+
+// ---------------------------------------------------------------------------
+// Mnemonics without operands (C01): processOcode answers them from a byte table
+// ---------------------------------------------------------------------------
+
+// specNoOperandEnc is the complete encoding, in a 16- or 32-bit code segment, of the instruction (or
+// prefix) a mnemonic without operands denotes, packed as n<<24 | b0<<16 | b1<<8 | b2 (n = number of
+// bytes, at most 3); -1 when the mnemonic has no operand-less form (it needs operands), -2 when it
+// exists in 64-bit mode only, -3 for kinds that are not operand-less mnemonics. Transcribed from
+// the opcode listings of the Intel SDM Vol. 2 (x87: "no-operand" forms act on ST(0)/ST(1); FINIT,
+// FCLEX, FENI, FDISI, FSETPM are the WAIT-prefixed forms of FNINIT...; mnemonics ending in D and
+// CWDE/CDQ name the 32-bit operand size, CBW/CWD the 16-bit one; IRET, PUSHA, POPA, PUSHF, POPF
+// take the default size of the mode).
+func specNoOperandEnc(k ocode.OcodeKind, mode int) int {
+	switch k {
+	case ocode.OpAAA:
+		return 0x01370000
+	case ocode.OpAAS:
+		return 0x013F0000
+	case ocode.OpDAA:
+		return 0x01270000
+	case ocode.OpDAS:
+		return 0x012F0000
+	case ocode.OpCLC:
+		return 0x01F80000
+	case ocode.OpCLD:
+		return 0x01FC0000
+	case ocode.OpCLI:
+		return 0x01FA0000
+	case ocode.OpCMC:
+		return 0x01F50000
+	case ocode.OpHLT:
+		return 0x01F40000
+	case ocode.OpINTO:
+		return 0x01CE0000
+	case ocode.OpLAHF:
+		return 0x019F0000
+	case ocode.OpSAHF:
+		return 0x019E0000
+	case ocode.OpLEAVE:
+		return 0x01C90000
+	case ocode.OpNOP:
+		return 0x01900000
+	case ocode.OpSTC:
+		return 0x01F90000
+	case ocode.OpSTD:
+		return 0x01FD0000
+	case ocode.OpSTI:
+		return 0x01FB0000
+	case ocode.OpWAIT:
+		return 0x019B0000
+	case ocode.OpRETF:
+		return 0x01CB0000
+	case ocode.OpRETN:
+		return 0x01C30000
+	case ocode.OpICEBP:
+		return 0x01F10000
+	case ocode.OpSETALC:
+		return 0x01D60000
+	case ocode.OpCS:
+		return 0x012E0000
+	case ocode.OpDS:
+		return 0x013E0000
+	case ocode.OpES:
+		return 0x01260000
+	case ocode.OpFS:
+		return 0x01640000
+	case ocode.OpGS:
+		return 0x01650000
+	case ocode.OpSS:
+		return 0x01360000
+	case ocode.OpLOCK:
+		return 0x01F00000
+	case ocode.OpREP:
+		return 0x01F30000
+	case ocode.OpREPE:
+		return 0x01F30000
+	case ocode.OpREPNE:
+		return 0x01F20000
+	case ocode.OpTAKEN:
+		return 0x013E0000
+	case ocode.OpIRET:
+		return 0x01CF0000
+	case ocode.OpPOPA:
+		return 0x01610000
+	case ocode.OpPUSHA:
+		return 0x01600000
+	case ocode.OpPOPF:
+		return 0x019D0000
+	case ocode.OpPUSHF:
+		return 0x019C0000
+	case ocode.OpAAD:
+		return 0x02D50A00
+	case ocode.OpAAM:
+		return 0x02D40A00
+	case ocode.OpCLTS:
+		return 0x020F0600
+	case ocode.OpCPUID:
+		return 0x020FA200
+	case ocode.OpEMMS:
+		return 0x020F7700
+	case ocode.OpF2XM1:
+		return 0x02D9F000
+	case ocode.OpFABS:
+		return 0x02D9E100
+	case ocode.OpFADDP:
+		return 0x02DEC100
+	case ocode.OpFCHS:
+		return 0x02D9E000
+	case ocode.OpFCLEX:
+		return 0x039BDBE2
+	case ocode.OpFNCLEX:
+		return 0x02DBE200
+	case ocode.OpFCOM:
+		return 0x02D8D100
+	case ocode.OpFCOMP:
+		return 0x02D8D900
+	case ocode.OpFCOMPP:
+		return 0x02DED900
+	case ocode.OpFCOS:
+		return 0x02D9FF00
+	case ocode.OpFDECSTP:
+		return 0x02D9F600
+	case ocode.OpFDISI:
+		return 0x039BDBE1
+	case ocode.OpFNDISI:
+		return 0x02DBE100
+	case ocode.OpFDIVP:
+		return 0x02DEF900
+	case ocode.OpFDIVRP:
+		return 0x02DEF100
+	case ocode.OpFENI:
+		return 0x039BDBE0
+	case ocode.OpFNENI:
+		return 0x02DBE000
+	case ocode.OpFINCSTP:
+		return 0x02D9F700
+	case ocode.OpFINIT:
+		return 0x039BDBE3
+	case ocode.OpFNINIT:
+		return 0x02DBE300
+	case ocode.OpFLD1:
+		return 0x02D9E800
+	case ocode.OpFLDL2E:
+		return 0x02D9EA00
+	case ocode.OpFLDL2T:
+		return 0x02D9E900
+	case ocode.OpFLDLG2:
+		return 0x02D9EC00
+	case ocode.OpFLDLN2:
+		return 0x02D9ED00
+	case ocode.OpFLDPI:
+		return 0x02D9EB00
+	case ocode.OpFLDZ:
+		return 0x02D9EE00
+	case ocode.OpFMULP:
+		return 0x02DEC900
+	case ocode.OpFNOP:
+		return 0x02D9D000
+	case ocode.OpFNSETPM:
+		return 0x02DBE400
+	case ocode.OpFSETPM:
+		return 0x039BDBE4
+	case ocode.OpFPATAN:
+		return 0x02D9F300
+	case ocode.OpFPREM:
+		return 0x02D9F800
+	case ocode.OpFPREM1:
+		return 0x02D9F500
+	case ocode.OpFPTAN:
+		return 0x02D9F200
+	case ocode.OpFRNDINT:
+		return 0x02D9FC00
+	case ocode.OpFSCALE:
+		return 0x02D9FD00
+	case ocode.OpFSIN:
+		return 0x02D9FE00
+	case ocode.OpFSINCOS:
+		return 0x02D9FB00
+	case ocode.OpFSQRT:
+		return 0x02D9FA00
+	case ocode.OpFSUBP:
+		return 0x02DEE900
+	case ocode.OpFSUBRP:
+		return 0x02DEE100
+	case ocode.OpFTST:
+		return 0x02D9E400
+	case ocode.OpFUCOM:
+		return 0x02DDE100
+	case ocode.OpFUCOMP:
+		return 0x02DDE900
+	case ocode.OpFUCOMPP:
+		return 0x02DAE900
+	case ocode.OpFXAM:
+		return 0x02D9E500
+	case ocode.OpFXCH:
+		return 0x02D9C900
+	case ocode.OpFXTRACT:
+		return 0x02D9F400
+	case ocode.OpFYL2X:
+		return 0x02D9F100
+	case ocode.OpFYL2XP1:
+		return 0x02D9F900
+	case ocode.OpGETSEC:
+		return 0x020F3700
+	case ocode.OpINVD:
+		return 0x020F0800
+	case ocode.OpWBINVD:
+		return 0x020F0900
+	case ocode.OpLFENCE:
+		return 0x030FAEE8
+	case ocode.OpMFENCE:
+		return 0x030FAEF0
+	case ocode.OpSFENCE:
+		return 0x030FAEF8
+	case ocode.OpLOADALL:
+		return 0x020F0700
+	case ocode.OpMONITOR:
+		return 0x030F01C8
+	case ocode.OpMWAIT:
+		return 0x030F01C9
+	case ocode.OpPAUSE:
+		return 0x02F39000
+	case ocode.OpRDMSR:
+		return 0x020F3200
+	case ocode.OpRDPMC:
+		return 0x020F3300
+	case ocode.OpRDTSC:
+		return 0x020F3100
+	case ocode.OpRDTSCP:
+		return 0x030F01F9
+	case ocode.OpRSM:
+		return 0x020FAA00
+	case ocode.OpSYSCALL:
+		return 0x020F0500
+	case ocode.OpSYSENTER:
+		return 0x020F3400
+	case ocode.OpSYSEXIT:
+		return 0x020F3500
+	case ocode.OpSYSRET:
+		return 0x020F0700
+	case ocode.OpUD2:
+		return 0x020F0B00
+	case ocode.OpVMCALL:
+		return 0x030F01C1
+	case ocode.OpVMLAUNCH:
+		return 0x030F01C2
+	case ocode.OpVMRESUME:
+		return 0x030F01C3
+	case ocode.OpVMXOFF:
+		return 0x030F01C4
+	case ocode.OpWRMSR:
+		return 0x020F3000
+	case ocode.OpXGETBV:
+		return 0x030F01D0
+	case ocode.OpXSETBV:
+		return 0x030F01D1
+	case ocode.OpCBW:
+		if mode == 16 {
+			return 0x01980000
+		}
+		return 0x02669800
+	case ocode.OpCWDE:
+		if mode == 32 {
+			return 0x01980000
+		}
+		return 0x02669800
+	case ocode.OpCWD:
+		if mode == 16 {
+			return 0x01990000
+		}
+		return 0x02669900
+	case ocode.OpCDQ:
+		if mode == 32 {
+			return 0x01990000
+		}
+		return 0x02669900
+	case ocode.OpIRETD:
+		if mode == 32 {
+			return 0x01CF0000
+		}
+		return 0x0266CF00
+	case ocode.OpPOPAD:
+		if mode == 32 {
+			return 0x01610000
+		}
+		return 0x02666100
+	case ocode.OpPUSHAD:
+		if mode == 32 {
+			return 0x01600000
+		}
+		return 0x02666000
+	case ocode.OpPOPFD:
+		if mode == 32 {
+			return 0x019D0000
+		}
+		return 0x02669D00
+	case ocode.OpPUSHFD:
+		if mode == 32 {
+			return 0x019C0000
+		}
+		return 0x02669C00
+	case ocode.OpDIV, ocode.OpIDIV, ocode.OpMUL, ocode.OpENTER, ocode.OpFRSTOR, ocode.OpFXRSTOR, ocode.OpXRSTOR, ocode.OpJMPE:
+		return -1
+	case ocode.OpCDQE, ocode.OpCQO, ocode.OpIRETQ, ocode.OpPOPFQ, ocode.OpPUSHFQ, ocode.OpSWAPGS:
+		return -2
+	}
+	return -3
+}
+
+
+// specInNoOperandTable: the code generator treats the kind as an operand-less mnemonic.
+func specInNoOperandTable(k ocode.OcodeKind) bool {
+	_, ok := opcodeMap[k]
+	return ok
+}
+
+// specNoOperandOK: b is exactly the packed encoding enc (see specNoOperandEnc).
+func specNoOperandOK(b []byte, enc int) bool {
+	if enc < 0 || len(b) != enc>>24 {
+		return false
+	}
+	return (len(b) < 1 || b[0] == byte(enc>>16)) && (len(b) < 2 || b[1] == byte(enc>>8)) && (len(b) < 3 || b[2] == byte(enc))
+}
+
+// Regions of recorded findings.
+func specNoOperandMultiByte(k ocode.OcodeKind) bool {
+	return specNoOperandEnc(k, 16) >= 0 && specNoOperandEnc(k, 16) == specNoOperandEnc(k, 32) && specNoOperandEnc(k, 16)>>24 >= 2
+}
+
+func specNoOperandNeeds66(k ocode.OcodeKind, mode int) bool {
+	return specNoOperandEnc(k, 16) != specNoOperandEnc(k, 32) && specNoOperandEnc(k, mode)>>24 == 2
+}
+
+// ---------------------------------------------------------------------------
 // Code generation driver (C14, C10): what a statement's code may depend on and change
 // ---------------------------------------------------------------------------
 
 //@ func processOcode
-//@ props C14 C10 C13
-//@ option failure-is-event
+//@ props C14 C10 C13 C01
+//@ option failure-is-event with-init
 //@ requires ctx != nil && machineCode != nil && ctx.VS != nil
 //@ requires ctx.BitMode == cpu.MODE_16BIT || ctx.BitMode == cpu.MODE_32BIT
 //@ requires ctx.DollarPosition <= 0xFFFFFFFF && len(*machineCode) <= 1<<40
 //@ ensures[frame] true
+//@ ensures[noparam@C01] specInNoOperandTable(oc.Kind) && result1 == nil ==> specNoOperandOK(result0, specNoOperandEnc(oc.Kind, specMode(ctx.BitMode)))
 //@ assigns VariantStack
 
 //@ func GenerateX86
